@@ -51,14 +51,25 @@ def sh(cmd, cwd=None, timeout=1800, env=None):
 
 
 class Lock:
+    """One check at a time per /verif tree, for its WHOLE duration: coq/Gen/Tables.v, the .vo files and the
+    extracted drivers under build/ocaml are shared, also with development runs against a scratch copy
+    (VERIF_REPO), so a second run must not regenerate them while the first one's correspondence is running.
+    Re-entrant within the process."""
+    depth = 0
+    f = None
+
     def __enter__(self):
-        os.makedirs(BUILD, exist_ok=True)
-        self.f = open(os.path.join(BUILD, ".lock"), "w")
-        fcntl.flock(self.f, fcntl.LOCK_EX)
+        if Lock.depth == 0:
+            os.makedirs(BUILD, exist_ok=True)
+            Lock.f = open(os.path.join(BUILD, ".lock"), "w")
+            fcntl.flock(Lock.f, fcntl.LOCK_EX)
+        Lock.depth += 1
 
     def __exit__(self, *a):
-        fcntl.flock(self.f, fcntl.LOCK_UN)
-        self.f.close()
+        Lock.depth -= 1
+        if Lock.depth == 0:
+            fcntl.flock(Lock.f, fcntl.LOCK_UN)
+            Lock.f.close()
 
 
 # ------------------------------------------------------------------------------------------ steps
@@ -635,7 +646,9 @@ def main():
         seed = int(os.environ.get("VERIF_SEED", "1"))
     except ValueError:
         seed = 1
-    sys.exit(check(prop, tier, seed, replay))
+    with Lock():
+        rc = check(prop, tier, seed, replay)
+    sys.exit(rc)
 
 
 if __name__ == "__main__":
